@@ -189,8 +189,23 @@ def check(index, ctx):
         raise AnalysisError("anchor vanished: TensorDict.__init__")
     c = cfg_of(ini[1].node)
     sup = c.nodes_containing(lambda x: isinstance(x, ast.Call) and isinstance(x.func, ast.Attribute) and x.func.attr == "__init__" and isinstance(x.func.value, ast.Call) and norm_text(x.func.value.func) == "super")
-    cd = c.nodes_containing(lambda x: isinstance(x, ast.Call) and isinstance(x.func, ast.Attribute) and x.func.attr == "_check_dict")
-    cp = c.nodes_containing(lambda x: isinstance(x, ast.Call) and isinstance(x.func, ast.Attribute) and x.func.attr == "_check_all_pairs")
+    def always_calls(fi, name, depth=0):
+        """Every path of method `fi` to its normal exit calls `name` (directly or through another method of the class)."""
+        if depth > 3:
+            return False
+        g = cfg_of(fi.node)
+        hits = g.nodes_containing(lambda x: isinstance(x, ast.Call) and isinstance(x.func, ast.Attribute) and (
+            x.func.attr == name or (isinstance(x.func.value, ast.Name) and x.func.value.id in ("self", "cls") and x.func.attr in td.methods and x.func.attr != fi.name
+                                    and always_calls(td.methods[x.func.attr], name, depth + 1))))
+        return bool(hits) and all(any(n is h for n in p) for p in g.acyclic_paths() for h in [next((h for h in hits if h in p), None)] if True) and all(any(h in p for h in hits) for p in g.acyclic_paths())
+
+    def covering(name):
+        return c.nodes_containing(lambda x: isinstance(x, ast.Call) and isinstance(x.func, ast.Attribute) and (
+            x.func.attr == name or (isinstance(x.func.value, ast.Name) and x.func.value.id in ("self", "cls") and x.func.attr in td.methods and x.func.attr != "__init__"
+                                    and always_calls(td.methods[x.func.attr], name))))
+
+    cd = covering("_check_dict")
+    cp = covering("_check_all_pairs")
     ok = bool(sup) and all(any(c.dominates(x, s) for x in cd) and any(c.dominates(x, s) for x in cp) for s in sup)
     ctx.require(ok, "R6", "TensorDict.__init__: checks dominate the store", "_check_dict and _check_all_pairs run on every path before super().__init__",
                 "a path reaches super().__init__(...) without running _check_dict / _check_all_pairs: a dictionary can exist with values whose shapes contradict its type", ini[1].loc())
